@@ -270,6 +270,10 @@ def _writes_and_calls(stmts: List[ast.stmt], obj: str) -> Tuple[List[str], List[
                 f = ast.unparse(n.func)
                 if f.startswith(obj + "."):
                     calls.append(f[len(obj) + 1:])
+                # the unbound form `Class.method(obj, ...)` is a call of `method` on obj (resolved at Class)
+                if isinstance(n.func, ast.Attribute) and isinstance(n.func.value, ast.Name) and n.func.value.id[:1].isupper() \
+                        and n.args and ast.unparse(n.args[0]) == obj:
+                    calls.append(n.func.attr)
                 if f in ("setattr", "object.__setattr__") and n.args and ast.unparse(n.args[0]) == obj:
                     writes.append("setattr:" + ast.unparse(n.args[1]))
     return sorted(set(writes)), sorted(set(calls))
